@@ -65,6 +65,35 @@ func (c15) Gen(r *rand.Rand, tier string, run int) *core.Case {
 	c.Batch = "concurrent"
 	clients := 2 + r.IntN(2)
 	c.Params["clients"] = clients
+	if r.IntN(6) == 0 {
+		// a baton handed over: the hosting process always has the next
+		// service ready before it terminates the previous one, while remote
+		// clients list the services. Every listing is the content of the
+		// registry at one moment: it names one of the two at least
+		c.Batch = "hand-over"
+		clients = 2
+		c.Params["clients"] = 2
+		c.Params["unregister_directory"] = 0
+		pad := r.IntN(3)
+		for i := 0; i < pad; i++ {
+			// entries nobody touches afterwards make the listing longer
+			c.Ops = append(c.Ops, core.Op{Kind: "register", Actor: 0, S: fmt.Sprintf("P%d", i)}, core.Op{Kind: "ready", Actor: 0, X: int64(i)})
+		}
+		for k := 0; k < 2; k++ {
+			for i := 0; i < 2+r.IntN(2); i++ {
+				c.Ops = append(c.Ops, core.Op{Kind: "list", Actor: k})
+			}
+		}
+		rounds := 2 + r.IntN(2)
+		if pad == 0 {
+			rounds = 3
+		}
+		c.Ops = append(c.Ops, core.Op{Kind: "newservice", Actor: 70, S: c15names[0]})
+		for i := 1; i <= rounds; i++ {
+			c.Ops = append(c.Ops, core.Op{Kind: "newservice", Actor: 70, S: c15names[i%3]}, core.Op{Kind: "terminate", Actor: 70, X: int64(i - 1)})
+		}
+		return c
+	}
 	total := 0
 	for k := 0; k < clients; k++ {
 		n := 2 + r.IntN(4)
